@@ -141,6 +141,49 @@ def schema_facts(schema) -> Dict[str, Any]:
     return facts
 
 
+def strip_uncarried(facts: Dict[str, Any]) -> Dict[str, Any]:
+    """Facts without what an introspection result obtained with descriptions=False and none of the optional introspection fields can hold."""
+    f = json.loads(json.dumps(facts))
+
+    # a conformant server hides deprecated arguments and input fields unless asked with includeDeprecated (an optional introspection feature)
+    def drop_deprecated_args(x):
+        if isinstance(x, dict):
+            if isinstance(x.get("args"), dict):
+                x["args"] = {k: v for k, v in x["args"].items() if not v.get("deprecation")}
+            for v in x.values():
+                drop_deprecated_args(v)
+
+    drop_deprecated_args(f)
+    for t in f["types"].values():
+        if t.get("kind") == "GraphQLInputObjectType":
+            gone = [k for k, v in t.get("fields", {}).items() if v.get("deprecation")]
+            for k in gone:
+                del t["fields"][k]
+            t["field_order"] = [k for k in t.get("field_order", []) if k not in gone]
+
+    def walk(x, in_args=False):
+        if isinstance(x, dict):
+            for k in list(x):
+                if k == "description" or k == "specified_by_url":
+                    x[k] = None
+                elif k == "repeatable":
+                    x[k] = False
+                elif k == "deprecation" and in_args:
+                    x[k] = None
+                else:
+                    walk(x[k], in_args or k == "args")
+        elif isinstance(x, list):
+            for y in x:
+                walk(y, in_args)
+
+    walk(f)
+    for t in f["types"].values():
+        if t.get("kind") == "GraphQLInputObjectType":
+            for fld in t.get("fields", {}).values():
+                fld["deprecation"] = None
+    return f
+
+
 def diff_facts(a: Any, b: Any, path: str = "") -> List[str]:
     out: List[str] = []
     if isinstance(a, dict) and isinstance(b, dict):
@@ -168,6 +211,12 @@ def worker(case: Dict[str, Any]) -> CaseResult:
     spec, feats, gen = generate_schema(case["seed"] * 100003 + case["idx"], set(), size=case.get("size", "m"), descriptions=True)
     feats = set(feats)
     enrich(spec, gen, rng, feats)
+    if case.get("remote"):
+        # a deprecated input field that a default value elsewhere mentions would make the hidden field surface inside a default: keep the remote
+        # cases to deprecations on arguments, fields and enum values
+        for fields_ in spec.inputs.values():
+            for a_ in fields_:
+                a_.deprecated = None
     sdl = case.get("_sdl") or spec.sdl()
     try:
         src = build_schema(sdl)
@@ -183,12 +232,34 @@ def worker(case: Dict[str, Any]) -> CaseResult:
     fl = sorted(feats)
     replay_case = dict(case)
     replay_case["_sdl"] = sdl
+    remote = bool(case.get("remote"))
+    if remote:
+        feats.add("source.introspection")
+        fl = sorted(feats)
     with core.Scratch() as root:
-        cfg = write_case(root, sdl, None, cfg_full)
-        cfg.pop("include_comments", None)
-        with warnings.catch_warnings():
-            warnings.simplefilter("ignore")
-            g = run_cli(root, "graphqlschema", cfg)
+        if remote:
+            # the schema arrives through introspection of a remote endpoint (answered in-process by graphql-core on the source schema)
+            import ariadne_codegen.schema as schema_mod
+
+            from .c19 import PostRecorder
+            cfg_full["remote_schema_url"] = "http://introspect.test/graphql"
+            cfg = write_case(root, None, None, cfg_full)
+            cfg.pop("include_comments", None)
+            rec = PostRecorder(src)
+            saved_post = schema_mod.httpx.post
+            schema_mod.httpx.post = rec
+            try:
+                with warnings.catch_warnings():
+                    warnings.simplefilter("ignore")
+                    g = run_cli(root, "graphqlschema", cfg)
+            finally:
+                schema_mod.httpx.post = saved_post
+        else:
+            cfg = write_case(root, sdl, None, cfg_full)
+            cfg.pop("include_comments", None)
+            with warnings.catch_warnings():
+                warnings.simplefilter("ignore")
+                g = run_cli(root, "graphqlschema", cfg)
         if not g.ok:
             violations.append(Violation(PROP, "generates", "graphqlschema failed on a valid schema: %s: %s\n%s" % (g.exc_type, str(g.exception)[:300], g.traceback[-800:]), fl, replay_case,
                                         mech="c16:generates:" + g.exc_type))
@@ -230,10 +301,26 @@ def worker(case: Dict[str, Any]) -> CaseResult:
             violations.append(Violation(PROP, "produced-valid", "produced schema invalid: %s" % errs[0].message[:300], fl, replay_case, mech="c16:produced-valid"))
         a, b = print_schema(src), print_schema(produced)
         stats["print_comparisons"] = 1
-        if a != b:
+        if remote:
+            # what the introspection query the tool sends (descriptions off, no optional introspection fields) cannot carry is compared separately:
+            # everything else must be reproduced exactly, the rest is one listed finding
+            stats["introspected_sources"] = 1
+            fa_full, fb = schema_facts(src), schema_facts(produced)
+            reduced = strip_uncarried(fa_full)
+            diffs = diff_facts(reduced, strip_uncarried(fb))
+            if diffs:
+                violations.append(Violation(PROP, "structurally-equal", "introspected source: " + "\n".join(diffs)[:1500], fl, replay_case, mech="c16:introspected:structurally-equal"))
+            lost = diff_facts(fa_full, fb)
+            if lost and not diffs:
+                violations.append(Violation(PROP, "structurally-equal", "introspected source, lost on the way: " + "\n".join(lost)[:800], fl, replay_case,
+                                            mech="introspected-source-loses-descriptions-and-optional-introspection-fields"))
+        elif a != b:
             import difflib
             d = "".join(list(difflib.unified_diff(a.splitlines(True), b.splitlines(True), "source", "generated", n=0))[:24])
             violations.append(Violation(PROP, "print-schema-equal", d[:1500], fl, replay_case, mech="c16:print-schema-equal"))
+        if remote:
+            sample = {"source": "introspection", "target": target} if case["idx"] < 8 else None
+            return CaseResult("violated" if violations else "held", [v.to_json() for v in violations], stats, {"features": fl}, sample=sample)
         fa, fb = schema_facts(src), schema_facts(produced)
         stats["structural_comparisons"] = 1
         stats["types_compared"] = len(fa["types"])
@@ -299,13 +386,15 @@ def run(tier: str, seed: int) -> int:
               "and structurally; a quarter of the cases then edit the schema (white space inside strings / an appended type / letter case) and generate again onto the existing "
               "target, which must equal a fresh generation of the edited schema; distinct = distinct feature-set")
     r.assumptions = ["graphql-core build_schema/print_schema are the reference reading of the SDL"]
-    r.floors = {"print_comparisons": 200, "structural_comparisons": 200, "directives_compared": 50, "regenerations_after_edit": 40}
+    r.floors = {"print_comparisons": 200, "structural_comparisons": 200, "directives_compared": 50, "regenerations_after_edit": 40, "introspected_sources": 20}
     n = 3000 if tier == "thorough" else 400
     targets = [("schema_out.py", None), ("schema_out.py", ("my_schema", "my_types")), ("out.graphql", None), ("sub_out.gql", None), ("schema_out.py", ("schema_", "TYPES"))]
     cases = []
     for i in range(n):
         t, names = targets[i % len(targets)]
         cases.append({"seed": seed, "idx": i, "target": t, "names": names, "size": ["s", "m", "l"][i % 3], "tier": tier})
+        if i % 7 == 3:
+            cases[-1]["remote"] = True
         if i % 4 == 1:
             cases[-1]["regen"] = ["string-whitespace", "appended-type", "case-change"][(i // 4) % 3]
 
